@@ -5,12 +5,12 @@ from __future__ import annotations
 import ast
 import re
 
-from ..core import Checker, Rule, attr_calls, callee_is, calls_in, resolved_calls, short
+from ..core import Checker, Rule, attr_calls, callee_is, calls_in, kwarg, resolved_calls, short
 from ..grammar import schema
 from ..interp import Pins, find_nodes, unparse
 from ..kinds import Kinds
 from ..model import AnalysisError
-from .util import enclosing_loop, enclosing_stmt, every_iteration_reaches, fmt, is_const, parent, returns_of, self_attr_for_param
+from .util import enclosing_loop, enclosing_stmt, every_iteration_reaches, fmt, is_const, parent, returns_of, same, self_attr_for_param, single_def
 
 P = ("C09", "C01")
 CLS = "unused:UnusedTranslator"
@@ -268,11 +268,46 @@ def r_anonymize(ck: Checker) -> None:
     ck.add("aggregates are skipped", ok, tb, tcalls[0], f"transform not applied to aggregate literals: {ok}", "inside an aggregate a variable that occurs once still distinguishes tuples")
 
 
+def r_convert(ck: Checker) -> None:
+    """Mapper.convert: after the head arguments of the copy rule were replaced by the arguments of the use site, only
+    variables that do NOT occur at the use site are anonymised"""
+    func = ck.func(f"{CLS}.Mapper.convert")
+    it = ck.interp(func)
+    args = func.params()[1]
+    rr = ck.func(f"{CLS}.Mapper.convert.<locals>.replace_rest")
+    itr = ck.interp(rr)
+    inp, keep = rr.params()[:2]
+    anon = [r for r, st in itr.returns if r.value is not None and unparse(r.value).replace(" ", "") in ("Variable(LOC,'_')", 'Variable(LOC,"_")')]
+    ck.need(len(anon) == 1, "replace_rest anonymises at one site")
+    ck.guard("a variable is anonymised only if it does not occur at the use site", rr, anon[0], f"{inp} not in {keep}", "")
+    binds = [c for c in calls_in(func, lambda c: unparse(c.func) == "partial" and c.args and unparse(c.args[0]) == rr.qualname.split(".")[-1])]
+    ck.need(len(binds) == 1 and kwarg(binds[0], keep) is not None, "replace_rest is applied with the use-site variables bound")
+    keepname = unparse(kwarg(binds[0], keep))  # type: ignore[arg-type]
+    ups = [c for c in attr_calls(func, "update") if unparse(c.func.value) == keepname]  # type: ignore[attr-defined]
+    init = single_def(func, keepname) if not ups else None
+    good = False
+    detail = ""
+    for c in ups:
+        a = c.args[0]
+        if isinstance(a, ast.Call) and callee_is(ck.prg, func, a, "ngo.utils.ast:collect_ast") and is_const(a.args[1], "Variable") and isinstance(a.args[0], ast.Name):
+            org = {st.origin.get(a.args[0].id, "") for st in it.states(c)}
+            lp = enclosing_loop(func, c)
+            okk, n = every_iteration_reaches(ck, func, lp, c, None) if lp is not None else (False, 0)
+            detail = f"`{fmt(c)}` for every element of {sorted(org)}"
+            good = org == {f"{args}[*]"} and okk and n > 0
+    if init is not None:
+        detail = f"{keepname} = `{unparse(init)}`"
+        good = same(unparse(init), f"set(collect_ast({args}, 'Variable'))")
+    ck.add("the use-site variables are ALL variables inside the use-site arguments (also nested in function terms)", good, func, binds[0], detail or "no collection of the use-site variables found",
+           "`at(O,pos(R,C))` passes R inside a term: if only top-level arguments count, R is replaced by `_` and the join on R is lost")
+
+
 RULES = [
-    Rule("C09.EXHAUST.usage", P, r_usage_scan),
+    Rule("C09.EXHAUST.usage", P, r_usage_scan, extra={"C07": ("body of External", "body of Edge", "body of Heuristic", "body of ProjectAtom")}),
     Rule("C09.F2.interface", P + ("C07",), r_interface_used),
     Rule("C09.F.transform", P, r_transform),
     Rule("C09.E.remove-unused", P, r_remove_unused),
     Rule("C09.A.single-copies", P, r_single_copies),
+    Rule("C09.A.convert", P, r_convert),
     Rule("C09.anonymize", P, r_anonymize),
 ]
